@@ -154,7 +154,7 @@ let input_side : (string * (val0 -> bool)) list = [
 (* with the program at hand F17 is: input in the class, and the observation shows an unbracketed ':' host, a
    ValueError of an authority accessor or unbalanced brackets *)
 let f17_obs_of name (l : val0 list) = match name with
-  | "kf_f17" -> f17_observed l
+  | "kf_f17" -> f17_observed l || (match l with _ :: r -> f17_observed r | [] -> false)   (* either of two observations (first / re-parsed, direct / twin) *)
   | "kf_f17_1" -> f17_observed (List.tl l)
   | "kf_f17_base" -> f17_observed [List.nth l 4]
   | _ -> false
